@@ -147,8 +147,15 @@ def c03(ctx):
 
 @handler("C04")
 def c04(ctx):
+    def after(ctx, files):
+        # design level: the node tree and the recursive upsert/delete/min as written stay a search tree and are
+        # the ordered map of BsTree.tla for both comparators; the unconditional size decrement is the open
+        # finding: without it in OpenKF a delete of an absent key has no abstract counterpart
+        ctx.model_check("BsTreeNodesMC", "BsTreeNodesMC%s.cfg" % ("_deep" if ctx.tier == "thorough" else ""), workers=8, xmx="10g")
+        ctx.model_check("BsTreeNodesMC", "BsTreeNodesMC_desc.cfg", workers=8, xmx="10g")
+        ctx.model_check("BsTreeNodesMC", "BsTreeNodesMC_kf.cfg", expect_violation="Simulates")
     return seq_container(ctx, "bstree", "BsTreeTrace", [("BsTreeMC", "BsTreeMC.cfg")],
-                         depth=dict(quick=5, thorough=6), shards=12,
+                         depth=dict(quick=5, thorough=6), shards=12, after=after,
                          kf_controls=[("BsTreeMC", "BsTreeMC_kf.cfg", "SizeIsCount")])
 
 
